@@ -354,6 +354,24 @@ def F20():
     return [] if got == [0.1, 0.5, 0.9] else ["lookup at the grid points 0.1, 0.5, 0.9 returns %r" % got]
 
 
+def F21():
+    """C18: '' resolves to the first component without a rail, so batt_life('') / add_comp('') / set_comp_phases('') are accepted"""
+    s = System("t", Source("Batt", vo=3.7, rs=0.1))
+    s.add_comp("Batt", comp=PLoad("L", pwr=0.5))
+    bad = []
+    try:
+        s.batt_life("", cutoff=3.0, pfunc=lambda: (1.0, 3.7, 0.1), dfunc=lambda t, i: (0.0, 3.7, 0.1))
+        bad.append("batt_life('') accepted")
+    except ValueError:
+        pass
+    try:
+        s.add_comp("", comp=PLoad("L2", pwr=0.1))
+        bad.append("add_comp('') accepted")
+    except ValueError:
+        pass
+    return bad
+
+
 ALL = {k: v for k, v in globals().items() if k[0] == "F" and k[1:].isdigit()}
 if __name__ == "__main__":
     rc = 0
